@@ -905,6 +905,32 @@ func (g *Gen) SafeDeploy(a neotest.SingleSigner, c *neotest.Contract) *transacti
 
 // ScriptOldOracle schedules the life-cycle "deploy, designate an oracle node, request at block 5, answer at block
 // answerAt" (the request is a slow one: nothing answers it earlier where the traceability horizon is near).
+// ScriptLedgerProbes scripts, for every height in [from, to] that has no scripted step yet, a contract call looking at a
+// block (and a transaction of it, by position, positions beyond its end included) far below the traceability horizon.
+func (g *Gen) ScriptLedgerProbes(from, to uint32) {
+	if g.Script == nil {
+		g.Script = map[uint32]func() *transaction.Transaction{}
+	}
+	for h := from; h <= to; h++ {
+		if g.Script[h] != nil {
+			continue
+		}
+		g.Script[h] = func() *transaction.Transaction {
+			if len(g.KVs) == 0 {
+				return nil
+			}
+			_, a := g.acct()
+			c := g.KVs[g.R.Intn(len(g.KVs))]
+			idx := int64(1 + g.R.Intn(40))
+			if g.R.Intn(2) == 0 || len(g.OldTxs) == 0 {
+				return g.tx([]neotest.Signer{a}, c, "ledgerProbe3", idx, int64(g.R.Intn(6)))
+			}
+			old := g.OldTxs[g.R.Intn(1+len(g.OldTxs)/8)]
+			return g.tx([]neotest.Signer{a}, c, "ledgerProbe2", idx, old.BytesBE())
+		}
+	}
+}
+
 func (g *Gen) ScriptOldOracle(answerAt uint32) {
 	a := g.Accts[0]
 	g.Script = map[uint32]func() *transaction.Transaction{
